@@ -595,7 +595,313 @@ Proof.
     + destruct (vgs v); [destruct (vss v)|]; try exact Hi.
       match goal with |- context [if ?c then _ else _] => destruct c end; exact Hi.
   - match goal with |- context [if ?c then _ else _] => destruct c end; exact Hi.
+  - (* seekat: the state is not touched *)
+    destruct (find_elem h tag ref); [|exact Hi].
+    match goal with |- context [if ?c then _ else _] => destruct c end; [exact Hi|].
+    match goal with |- context [if ?c then _ else _] => destruct c end; exact Hi.
+  - (* chunkfill: the end of file is no longer tracked *)
+    match goal with |- context [if ?c then _ else _] => destruct c end; [exact Hi|].
+    simpl. intros Hc; discriminate.
 Qed.
 
 Lemma elem_ok_dd_ok : forall eof e, 0 <= eof <= INT32_MAX -> elem_ok eof e -> dd_ok (e_off e, e_len e).
 Proof. unfold elem_ok, dd_ok. simpl. intros eof e He [H|H]; [left; exact H | right; lia]. Qed.
+
+(* ------------------------------------------------------------------ Hseek, chunk refs, vpackvs *)
+Lemma hseek_lemma : forall appendable origin offset posn data_len,
+  0 <= posn <= INT32_MAX -> 0 <= data_len <= INT32_MAX -> (appendable = false -> posn <= data_len) ->
+  is_int32 offset -> (origin = DF_START \/ origin = DF_CURRENT \/ origin = DF_END) ->
+  m_hseek appendable origin offset posn data_len = s_hseek appendable origin offset posn data_len.
+Proof.
+  intros app origin offset posn dl Hp Hd Hna Ho Hor. unfold INT32_MAX in *. unfold is_int32 in Ho.
+  unfold m_hseek, s_hseek, truth, hseek_from_current, hseek_from_end, hseek_stays, hseek_out_of_range,
+         DF_START, DF_CURRENT, DF_END, INT32_MAX in *.
+  (* the wrapped sum of the origin arithmetic: equal to the true sum when that fits, negative when it does not *)
+  assert (Hw : forall b, 0 <= b <= 2147483647 ->
+            (offset + b <= 2147483647 /\ add32 offset b = offset + b) \/ (2147483647 < offset + b /\ add32 offset b < 0)).
+  { intros b Hb. destruct (Z_le_gt_dec (offset + b) 2147483647).
+    - left. split; [lia | apply add32_id; unfold is_int32; lia].
+    - right. split; [lia|]. unfold add32, wrap32.
+      replace (offset + b + 2147483648) with ((offset + b - 2147483648) + 1 * 4294967296) by lia.
+      rewrite Z.mod_add by lia. rewrite Z.mod_small by lia. lia. }
+  destruct Hor as [Hor|[Hor|Hor]]; subst origin; simpl.
+  - (* DF_START *)
+    replace (0 + offset) with offset by lia.
+    destruct (Z.eqb_spec offset posn).
+    + subst. simpl. destruct (Z.leb_spec 0 posn); [|lia]. destruct (Z.leb_spec posn 2147483647); [|lia]. simpl.
+      destruct app; simpl; [reflexivity|]. specialize (Hna eq_refl). destruct (Z.leb_spec posn dl); [reflexivity | lia].
+    + simpl. destruct app; simpl.
+      * destruct (Z.ltb_spec offset 0); simpl.
+        -- destruct (Z.leb_spec 0 offset); [lia | reflexivity].
+        -- destruct (Z.leb_spec 0 offset); [|lia]. destruct (Z.leb_spec offset 2147483647); [|lia]. reflexivity.
+      * destruct (Z.ltb_spec offset 0); simpl.
+        -- destruct (Z.leb_spec 0 offset); [lia | reflexivity].
+        -- destruct (Z.leb_spec 0 offset); [|lia]. destruct (Z.leb_spec offset 2147483647); [|lia]. simpl.
+           destruct (Z.ltb_spec dl offset); simpl; destruct (Z.leb_spec offset dl); try lia; reflexivity.
+  - (* DF_CURRENT *)
+    replace (posn + offset) with (offset + posn) by lia.
+    destruct (Hw posn Hp) as [[Hfit Heq]|[Hover Hneg]].
+    + rewrite Heq. destruct (Z.eqb_spec (offset + posn) posn).
+      * simpl. rewrite e. destruct (Z.leb_spec 0 posn); [|lia]. destruct (Z.leb_spec posn 2147483647); [|lia]. simpl.
+        destruct app; simpl; [reflexivity|]. specialize (Hna eq_refl). destruct (Z.leb_spec posn dl); [reflexivity | lia].
+      * simpl. destruct app; simpl.
+        -- destruct (Z.ltb_spec (offset + posn) 0); simpl.
+           ++ destruct (Z.leb_spec 0 (offset + posn)); [lia | reflexivity].
+           ++ destruct (Z.leb_spec 0 (offset + posn)); [|lia]. destruct (Z.leb_spec (offset + posn) 2147483647); [|lia]. reflexivity.
+        -- destruct (Z.ltb_spec (offset + posn) 0); simpl.
+           ++ destruct (Z.leb_spec 0 (offset + posn)); [lia | reflexivity].
+           ++ destruct (Z.leb_spec 0 (offset + posn)); [|lia]. destruct (Z.leb_spec (offset + posn) 2147483647); [|lia]. simpl.
+              destruct (Z.ltb_spec dl (offset + posn)); simpl; destruct (Z.leb_spec (offset + posn) dl); try lia; reflexivity.
+    + destruct (Z.eqb_spec (add32 offset posn) posn); [lia|]. simpl.
+      destruct (Z.ltb_spec (add32 offset posn) 0); [|lia]. simpl.
+      destruct (Z.leb_spec 0 (offset + posn)); [|lia]. destruct (Z.leb_spec (offset + posn) 2147483647); [lia|]. reflexivity.
+  - (* DF_END *)
+    replace (dl + offset) with (offset + dl) by lia.
+    destruct (Hw dl Hd) as [[Hfit Heq]|[Hover Hneg]].
+    + rewrite Heq. destruct (Z.eqb_spec (offset + dl) posn).
+      * simpl. rewrite e. destruct (Z.leb_spec 0 posn); [|lia]. destruct (Z.leb_spec posn 2147483647); [|lia]. simpl.
+        destruct app; simpl; [reflexivity|]. specialize (Hna eq_refl). destruct (Z.leb_spec posn dl); [reflexivity | lia].
+      * simpl. destruct app; simpl.
+        -- destruct (Z.ltb_spec (offset + dl) 0); simpl.
+           ++ destruct (Z.leb_spec 0 (offset + dl)); [lia | reflexivity].
+           ++ destruct (Z.leb_spec 0 (offset + dl)); [|lia]. destruct (Z.leb_spec (offset + dl) 2147483647); [|lia]. reflexivity.
+        -- destruct (Z.ltb_spec (offset + dl) 0); simpl.
+           ++ destruct (Z.leb_spec 0 (offset + dl)); [lia | reflexivity].
+           ++ destruct (Z.leb_spec 0 (offset + dl)); [|lia]. destruct (Z.leb_spec (offset + dl) 2147483647); [|lia]. simpl.
+              destruct (Z.ltb_spec dl (offset + dl)); simpl; destruct (Z.leb_spec (offset + dl) dl); try lia; reflexivity.
+    + destruct (Z.eqb_spec (add32 offset dl) posn); [lia|]. simpl.
+      destruct (Z.ltb_spec (add32 offset dl) 0); [|lia]. simpl.
+      destruct (Z.leb_spec 0 (offset + dl)); [|lia]. destruct (Z.leb_spec (offset + dl) 2147483647); [lia|]. reflexivity.
+Qed.
+
+Lemma chunk_ref_lemma : forall next, -1 <= next <= 2147483647 -> next <> 0 -> m_chunk_ref next = s_tagnewref next.
+Proof.
+  intros next Hn Hz. unfold m_chunk_ref. rewrite (tagnewref_lemma next Hn).
+  unfold s_tagnewref, truth, chunkwrite_no_ref, MAX_REF.
+  destruct (Z.leb_spec 0 next); simpl; [|reflexivity].
+  destruct (Z.leb_spec next 65535); simpl; [|reflexivity].
+  destruct (Z.eqb_spec next 0); [lia | reflexivity].
+Qed.
+
+Lemma int16_id : forall l, 0 <= l <= 32767 -> sub32 ((add32 l 32768) mod 65536) 32768 = l.
+Proof.
+  intros l Hl. rewrite (add32_id l 32768) by (unfold is_int32; lia).
+  rewrite Z.mod_small by lia. rewrite sub32_id by (unfold is_int32; lia). lia.
+Qed.
+
+Lemma vpackvs_fold : forall fnames, Forall (fun l => 0 <= l <= FIELDNAMELENMAX) fnames ->
+  fold_right (fun l acc => acc + (2 + vpackvs_fieldname_len16 l)) 0 fnames = fold_right (fun l acc => acc + (2 + l)) 0 fnames /\
+  0 <= fold_right (fun l acc => acc + (2 + l)) 0 fnames <= (2 + FIELDNAMELENMAX) * Z.of_nat (length fnames).
+Proof.
+  induction 1 as [|l t Hl Ht IH]; simpl fold_right; simpl length.
+  - split; [reflexivity | lia].
+  - destruct IH as [IH1 IH2]. unfold FIELDNAMELENMAX in *. rewrite IH1. unfold vpackvs_fieldname_len16.
+    rewrite int16_id by lia. split; [reflexivity|]. rewrite Nat2Z.inj_succ. lia.
+Qed.
+
+Lemma vpackvs_lemma : forall fnames namelen classlen,
+  Forall (fun l => 0 <= l <= FIELDNAMELENMAX) fnames -> Z.of_nat (length fnames) <= VSFIELDMAX ->
+  0 <= namelen <= VSNAMELENMAX -> 0 <= classlen <= VSNAMELENMAX ->
+  m_vpackvs_size fnames namelen classlen = s_vpackvs_size fnames namelen classlen /\
+  0 < m_vpackvs_size fnames namelen classlen <= vh_buffer_lower_bound.
+Proof.
+  intros fnames nl cl Hf Hn Hnl Hcl. destruct (vpackvs_fold fnames Hf) as [H1 H2].
+  unfold m_vpackvs_size, s_vpackvs_size, vh_buffer_lower_bound, vpackvs_name_len16, vpackvs_class_len16,
+         VSFIELDMAX, FIELDNAMELENMAX, VSNAMELENMAX in *.
+  rewrite H1. rewrite (int16_id nl) by lia. rewrite (int16_id cl) by lia.
+  destruct (Z.ltb_spec 0 (Z.of_nat (length fnames))).
+  - split; lia.
+  - assert (Hz : length fnames = 0%nat) by lia. destruct fnames; [|discriminate]. simpl. split; lia.
+Qed.
+
+(* ------------------------------------------------------------------ a refused request changes nothing *)
+(** site level: whenever a site model refuses, the state components it returns are the ones it was given *)
+Lemma sites_refusal_lemma :
+  (forall eof size, fst (m_getdiskblock eof size) = None -> snd (m_getdiskblock eof size) = eof) /\
+  (forall n, fst (m_vinsertpair n) = None -> snd (m_vinsertpair n) = n) /\
+  (forall fs, fst (m_vssetfields fs) = false -> snd (m_vssetfields fs) = (0, 0)) /\
+  (forall req sys cur slots, 0 <= req ->
+     truth (resetmax_keeps req cur) = true \/
+     truth (resetmax_too_small (if truth (resetmax_caps req sys) then sys else req) (highest slots 0 (-1))) = true ->
+     m_reset_maxopen req sys cur slots = (Z.of_nat (length slots), slots)).
+Proof.
+  split; [exact getdiskblock_fail_unchanged|]. split; [|split].
+  - intros n. unfold m_vinsertpair. destruct (truth (vinsertpair_full n)); simpl; [reflexivity | discriminate].
+  - intros fs. unfold m_vssetfields.
+    destruct (truth (scanattrs_full (Z.of_nat (length fs) - 1))); [reflexivity|].
+    destruct (truth (vssetfields_too_many (Z.of_nat (length fs)))); [reflexivity|].
+    destruct (m_setfields_loop fs 0 0); simpl; [discriminate | reflexivity].
+  - intros req sys cur slots Hreq Hc. unfold m_reset_maxopen.
+    destruct (Z.ltb_spec req 0); [lia|].
+    destruct (truth (resetmax_keeps req cur)); [reflexivity|].
+    destruct Hc as [Hc|Hc]; [discriminate|]. rewrite Hc. reflexivity.
+Qed.
+
+(** specification level: a refused request returns the abstract state it was given.  Excluded are the requests
+    whose refusal leaves the documented trace -- the length-less descriptor of an element whose space could not be
+    reserved ([refused_reservation_lemma] below says that this is all that changes) -- the linked-block write, which
+    is refused after HLcreate has made the element, and batches of several insertions. *)
+Definition is_refusal (r : res) : Prop := match r with RFail _ => True | _ => False end.
+Definition plain_request (st : state) (o : op) : bool :=
+  match st, o with
+  | _, OReserve _ _ _ | _, OPut _ _ _ | _, OHlWrite _ _ _ _ _ _ => false
+  | (h, _, _), OAppendAt tag ref _ _ => match find_elem h tag ref with Some _ => true | None => false end
+  | _, OVgAdd _ _ _ n => n =? 1
+  | _, _ => true
+  end.
+
+Ltac crush_step :=
+  repeat match goal with
+         | |- context [match ?x with _ => _ end] =>
+             match type of x with
+             | bool => destruct x eqn:?
+             | option _ => destruct x eqn:?
+             | prod _ _ => destruct x eqn:?
+             | list _ => destruct x eqn:?
+             | res => destruct x eqn:?
+             end; simpl in *; try discriminate; try tauto
+         end.
+
+Ltac fin := simpl; let Hr := fresh "Hr" in intro Hr; first [exfalso; exact Hr | reflexivity].
+Ltac ifs := repeat (match goal with |- context [if ?c then _ else _] => destruct c end; simpl).
+
+Lemma step_h_refusal : forall h v o, plain_request (h, v, d0) o = true -> is_h o = true ->
+  is_refusal (snd (step_h h v o)) -> fst (step_h h v o) = h.
+Proof.
+  intros h v o Hp Hh. destruct o; simpl in Hp, Hh; try discriminate; simpl.
+  - fin.
+  - destruct (find_elem h tag ref) as [e|]; [destruct (e_written e); [|destruct (e_len e <? 0)] | destruct (in_bulk h tag ref)]; fin.
+  - fin.
+  - destruct (h_known h); fin.
+  - destruct (find_elem h tag ref) as [e|]; [|discriminate].
+    match goal with |- context [if ?c then _ else _] => destruct c end; [fin|].
+    match goal with |- context [if ?c then _ else _] => destruct c end; fin.
+  - match goal with |- context [if ?c then _ else _] => destruct c end; [fin|].
+    match goal with |- context [if ?c then _ else _] => destruct c end; fin.
+  - destruct (h_maxref h <? 0); [fin|]. destruct (h_maxref h <? MAX_REF); [fin|].
+    destruct (vgs v); [destruct (vss v)|]; try fin.
+    match goal with |- context [if ?c then _ else _] => destruct c end; fin.
+  - match goal with |- context [if ?c then _ else _] => destruct c end; fin.
+  - destruct (find_elem h tag ref); [|fin].
+    match goal with |- context [if ?c then _ else _] => destruct c end; [fin|].
+    match goal with |- context [if ?c then _ else _] => destruct c end; fin.
+  - match goal with |- context [if ?c then _ else _] => destruct c end; fin.
+Qed.
+
+Ltac brk := repeat (simpl; match goal with |- context [match ?x with _ => _ end] => destruct x end).
+
+Lemma step_v_refusal : forall h v o, plain_request (h, v, d0) o = true ->
+  is_refusal (snd (step_v h v o)) -> fst (step_v h v o) = (h, v).
+Proof.
+  intros h v o Hp. destruct o; simpl in Hp; try discriminate; try (brk; fin).
+  (* vgadd of a single member: either accepted or nothing changes *)
+  simpl. apply Z.eqb_eq in Hp. subst n.
+  destruct (get_vg v v0) as [[i g]|]; [|fin].
+  destruct (Z.eqb_spec (Z.max 0 (Z.min 1 (UINT16_MAX - g_n g))) 0); [fin|].
+  destruct (Z.eqb_spec (Z.max 0 (Z.min 1 (UINT16_MAX - g_n g))) 1); [fin|]. lia.
+Qed.
+
+Lemma sd_do_open_refusal : forall d k, is_refusal (snd (sd_do_open d k)) -> fst (sd_do_open d k) = d.
+Proof. intros d k. unfold sd_do_open. brk; fin. Qed.
+
+Lemma step_d_refusal : forall d o, is_refusal (snd (step_d d o)) -> fst (step_d d o) = d.
+Proof.
+  intros d o. destruct o; try (brk; fin).
+  - (* sdstart *) simpl. destruct (file_get d k); [fin|].
+    pose proof (sd_do_open_refusal d k) as Ho. destruct (sd_do_open d k) as [d' r]. destruct r; simpl in *; try fin.
+    intros _. apply Ho. exact I.
+  - (* sdopen *) simpl. destruct (file_get d k); [|fin]. apply sd_do_open_refusal.
+Qed.
+
+Lemma step_refusal : forall st o, plain_request st o = true -> is_refusal (snd (step st o)) -> fst (step st o) = st.
+Proof.
+  intros [[h v] d] o Hp. unfold step.
+  destruct o eqn:Eo; try (simpl in Hp; discriminate); simpl is_d; simpl is_h; cbv iota.
+  all: try match goal with |- context [h_ndds ?hh =? 0] => destruct (h_ndds hh =? 0); [fin|] end.
+  all: try match goal with
+       | |- context [step_d ?dd ?oo] =>
+           pose proof (step_d_refusal dd oo) as Hd; destruct (step_d dd oo) as [d' r]; simpl in *;
+           intro Hr; rewrite (Hd Hr); reflexivity
+       | |- context [step_h ?hh ?vv ?oo] =>
+           pose proof (step_h_refusal hh vv oo) as Hh; destruct (step_h hh vv oo) as [h' r]; simpl in *;
+           intro Hr; rewrite (Hh Hp eq_refl Hr); reflexivity
+       | |- context [step_v ?hh ?vv ?oo] =>
+           pose proof (step_v_refusal hh vv oo) as Hv; destruct (step_v hh vv oo) as [[h' v'] r]; simpl in *;
+           intro Hr; specialize (Hv Hp Hr); inversion Hv; subst; reflexivity
+       end.
+  all: try fin.
+Qed.
+
+(** ... and for a reservation: all that a refusal may leave is the length-less descriptor of the requested
+    element (and the descriptor block that holds it); every other element, and the end of the data, stay *)
+Lemma find_filter_other : forall (l : list elem) tag ref t r, (t =? tag) && (r =? ref) = false ->
+  find (fun e => (e_tag e =? t) && (e_ref e =? r)) (filter (fun x => negb ((e_tag x =? tag) && (e_ref x =? ref))) l)
+  = find (fun e => (e_tag e =? t) && (e_ref e =? r)) l.
+Proof.
+  intros l tag ref t r Hk. induction l as [|a l IH]; simpl; [reflexivity|].
+  destruct ((e_tag a =? tag) && (e_ref a =? ref)) eqn:Ea; simpl.
+  - apply andb_true_iff in Ea. destruct Ea as [E1 E2]. apply Z.eqb_eq in E1. apply Z.eqb_eq in E2.
+    rewrite E1, E2. rewrite Z.eqb_sym in Hk. rewrite (Z.eqb_sym r ref) in Hk. rewrite Hk. exact IH.
+  - destruct ((e_tag a =? t) && (e_ref a =? r)); [reflexivity | exact IH].
+Qed.
+
+Lemma find_set_elem_other : forall h e t r, (t =? e_tag e) && (r =? e_ref e) = false ->
+  find (fun x => (e_tag x =? t) && (e_ref x =? r)) (set_elem h e) = find_elem h t r.
+Proof.
+  intros h e t r Hk. unfold set_elem, find_elem. simpl.
+  rewrite Z.eqb_sym, (Z.eqb_sym (e_ref e) r), Hk. apply find_filter_other. exact Hk.
+Qed.
+
+Lemma find_set_elem_same : forall h e, find (fun x => (e_tag x =? e_tag e) && (e_ref x =? e_ref e)) (set_elem h e) = Some e.
+Proof. intros h e. unfold set_elem. simpl. rewrite !Z.eqb_refl. reflexivity. Qed.
+
+Lemma give_block_refused : forall h tag ref len w, snd (give_block h tag ref len w) = false -> fst (give_block h tag ref len w) = h.
+Proof.
+  intros h tag ref len w. unfold give_block.
+  destruct (len <? 0); [reflexivity|]. destruct (h_known h); [|simpl; discriminate].
+  destruct (h_eof h + len <=? INT32_MAX); simpl; [discriminate | reflexivity].
+Qed.
+
+Lemma refused_reservation_lemma : forall h tag ref len w h' vs, 0 <= h_ndds h ->
+  new_element h tag ref len w = (h', RFail vs) ->
+  h_bulk h' = h_bulk h /\
+  (forall t r, (t =? tag) && (r =? ref) = false -> find_elem h' t r = find_elem h t r) /\
+  (match find_elem h' tag ref with Some e => e_len e < 0 | None => find_elem h tag ref = None end) /\
+  (h_known h = true -> h_known h' = true /\ h_eof h <= h_eof h' <= h_eof h + ddblock_size (h_ndds h)).
+Proof.
+  intros h tag ref len w h' vs Hn. unfold new_element.
+  destruct (negb (h_known h) && (FAR <? len)); [discriminate|].
+  destruct (in_bulk h tag ref); [discriminate|].
+  assert (Hdd : 0 <= ddblock_size (h_ndds h)) by (unfold ddblock_size, NDDS_SZ, OFFSET_SZ, DD_SZ; lia).
+  destruct (find_elem h tag ref) as [e|] eqn:Ef.
+  - destruct (Z.leb_spec 0 (e_len e)); [discriminate|].
+    pose proof (give_block_refused h tag ref len w) as Hg.
+    destruct (give_block h tag ref len w) as [h1 okb]. destruct okb; [discriminate|].
+    intro H1; inversion H1; subst. simpl in Hg. rewrite (Hg eq_refl).
+    split; [reflexivity|]. split; [intros; reflexivity|]. split; [rewrite Ef; lia|].
+    intros Hk; split; [exact Hk | lia].
+  - destruct (alloc_dd h) as [h1|] eqn:Ea.
+    + set (h2 := mkH (h_known h1) (h_eof h1) (h_ndds h1) (h_free h1) (Z.max (h_maxref h1) ref)
+                     (set_elem h1 (mkE tag ref (-1) (-1) false)) (h_bulk h1)).
+      pose proof (give_block_refused h2 tag ref len w) as Hg.
+      destruct (give_block h2 tag ref len w) as [h3 okb]. destruct okb; [discriminate|].
+      intro H1; inversion H1; subst h'. simpl in Hg. rewrite (Hg eq_refl). clear Hg H1.
+      (* what alloc_dd changed *)
+      assert (Ha : h_bulk h1 = h_bulk h /\ h_elems h1 = h_elems h /\ h_known h1 = h_known h /\
+                   (h_known h = true -> h_eof h <= h_eof h1 <= h_eof h + ddblock_size (h_ndds h))).
+      { unfold alloc_dd in Ea. destruct (h_known h) eqn:Hk; simpl in Ea.
+        - destruct (0 <? h_free h); [inversion Ea; subst; simpl; repeat split; lia|].
+          destruct (h_eof h + ddblock_size (h_ndds h) <=? INT32_MAX); [|discriminate].
+          inversion Ea; subst; simpl. repeat split; lia.
+        - inversion Ea; subst. rewrite Hk. repeat split; intros; discriminate. }
+      destruct Ha as [Hb [He [Hk Heof]]].
+      split; [exact Hb|]. split; [|split].
+      * intros t r Hne. unfold find_elem, set_elem. simpl.
+        rewrite (Z.eqb_sym tag t), (Z.eqb_sym ref r), Hne.
+        rewrite (find_filter_other (h_elems h1) tag ref t r Hne). rewrite He. reflexivity.
+      * unfold find_elem, set_elem. simpl. rewrite !Z.eqb_refl. simpl. lia.
+      * intros Hkk. simpl. rewrite Hk. split; [exact Hkk | exact (Heof Hkk)].
+    + intro H1; inversion H1; subst.
+      split; [reflexivity|]. split; [intros; reflexivity|]. split; [rewrite Ef; reflexivity|].
+      intros Hk; split; [exact Hk | lia].
+Qed.
